@@ -22,7 +22,9 @@ import (
 	"fmt"
 	"sort"
 	"strings"
+	"time"
 
+	"github.com/nspcc-dev/neo-go/pkg/core/block"
 	"github.com/nspcc-dev/neo-go/pkg/core/native/nativehashes"
 	"github.com/nspcc-dev/neo-go/pkg/core/native/nativeids"
 	"github.com/nspcc-dev/neo-go/pkg/core/native/noderoles"
@@ -129,6 +131,9 @@ func btemplates(thorough bool) []btpl {
 
 // udBytes returns manifest and NEF of a fourth instance deployable by account 1.
 func (w *world) udBytes() (mb, nb []byte, err error) {
+	if w.udManifest != nil {
+		return w.udManifest, w.udNEF, nil
+	}
 	c, err := chainx.CompileU(chainx.UVariant{Name: "UD", Sender: chainx.Acc(1).ScriptHash()})
 	if err != nil {
 		return nil, nil, err
@@ -141,7 +146,7 @@ func (w *world) udBytes() (mb, nb []byte, err error) {
 	return
 }
 
-var positions = []string{"only", "first", "middle", "last"}
+var positions = []string{"only", "first", "middle", "last", "after-writers"}
 
 const (
 	neighbourA = "A[PEX$gB[P]]"
@@ -322,8 +327,17 @@ func (ba *batomic) run(bc bcase) (what, detail []string, err error) {
 			return nil, nil, err
 		}
 	}
+	var writers []*transaction.Transaction
+	if bc.Pos == "after-writers" {
+		if writers, err = r1.writers(); err != nil {
+			return nil, nil, fmt.Errorf("writers: %w", err)
+		}
+	}
 	mk := func(mid *transaction.Transaction) []*transaction.Transaction {
 		var txs []*transaction.Transaction
+		for _, t := range writers {
+			txs = append(txs, cloneTx(t))
+		}
 		if a != nil {
 			txs = append(txs, cloneTx(a))
 		}
@@ -334,6 +348,7 @@ func (ba *batomic) run(bc bcase) (what, detail []string, err error) {
 		return txs
 	}
 	fail := func(w, d string) ([]string, []string, error) { return []string{w}, []string{d}, nil }
+	sub1, sub2 := r1.subscribe(), r2.subscribe()
 	if _, err := r1.n.AddBlock(mk(T)...); err != nil {
 		return fail("block-with-T-rejected", err.Error())
 	}
@@ -358,6 +373,11 @@ func (ba *batomic) run(bc bcase) (what, detail []string, err error) {
 			return "?"
 		}
 		return x[0].VMState.String()
+	}
+	for _, t := range writers {
+		if s := tState(r2, t.Hash()); s != "HALT" {
+			return nil, nil, fmt.Errorf("writer transaction did not halt: %s", r2.txAER(t.Hash()))
+		}
 	}
 	if s := tState(r2, twin.Hash()); s != "FAULT" {
 		return nil, nil, fmt.Errorf("ABORT twin did not fault: %s", s)
@@ -401,6 +421,16 @@ func (ba *batomic) run(bc bcase) (what, detail []string, err error) {
 		if a != nil {
 			st1, _ = step(st1, neighbourA, false)
 			st2 = st1
+		}
+		if writers != nil {
+			// the state T starts from is the twin's final state with the fees given back
+			base, err := w.readState(chainGetter{r2.n})
+			if err != nil {
+				return nil, nil, err
+			}
+			base.Gas[pSender] += T.SystemFee + T.NetworkFee
+			base.Bonus = init.Bonus
+			st1, st2 = base, base
 		}
 		st1, mT = step(st1, bc.Tpl.Prog, bc.Tpl.Committee)
 		if cc != nil {
@@ -460,6 +490,26 @@ func (ba *batomic) run(bc bcase) (what, detail []string, err error) {
 			return nil, nil, fmt.Errorf("halting template %s leaves no trace", bc.Tpl.Name)
 		}
 		ba.c.r.Outcome("B:halting-T-differs-from-twin-exactly-as-model")
+	}
+	// notifications dispatched to subscribers and token transfer logs derived from them
+	if !bc.Tpl.Halting {
+		x, err := sub1(T.Hash())
+		if err != nil {
+			return nil, nil, err
+		}
+		y, err := sub2(twin.Hash())
+		if err != nil {
+			return nil, nil, err
+		}
+		if x != y {
+			return fail("dispatched-notifications", fmt.Sprintf("with T %s, with twin %s", x, y))
+		}
+		if strings.Count(x, "block:") == 0 {
+			return nil, nil, fmt.Errorf("no notifications were dispatched at all: %q", x)
+		}
+		if x, y := r1.transferLog(T.Hash(), r1.n.BC.CurrentBlockHash()), r2.transferLog(twin.Hash(), r2.n.BC.CurrentBlockHash()); x != y {
+			return fail("transfer-log", fmt.Sprintf("with T %s, with twin %s", x, y))
+		}
 	}
 	// neighbours and block-level executions
 	b1, _ := r1.n.BC.GetBlock(r1.n.BC.CurrentBlockHash())
@@ -525,6 +575,92 @@ func (ba *batomic) run(bc bcase) (what, detail []string, err error) {
 	return nil, nil, nil
 }
 
+// subscribe registers for notifications and blocks; the returned function waits
+// for the next block event and renders the notifications dispatched before it.
+func (rg *rig) subscribe() func(self util.Uint256) (string, error) {
+	nch := make(chan *state.ContainedNotificationEvent, 8192)
+	bch := make(chan *block.Block, 64)
+	rg.n.BC.SubscribeForNotifications(nch)
+	rg.n.BC.SubscribeForBlocks(bch)
+	return func(self util.Uint256) (string, error) {
+		var b *block.Block
+		select {
+		case b = <-bch:
+		case <-time.After(60 * time.Second): // guard against a hang only; not an oracle
+			return "", fmt.Errorf("block event was not dispatched")
+		}
+		var sb strings.Builder
+		for {
+			select {
+			case e := <-nch:
+				c := e.Container.StringLE()[:6]
+				if e.Container == self {
+					c = "T"
+				} else if e.Container == b.Hash() {
+					c = "block"
+				}
+				sb.WriteString(c + ":" + strings.Join(rg.w.renderEvents([]state.NotificationEvent{e.NotificationEvent}), "") + " ")
+				continue
+			default:
+			}
+			break
+		}
+		return sb.String(), nil
+	}
+}
+
+// transferLog renders the NEP-17 transfer log of the principals.
+func (rg *rig) transferLog(self, blk util.Uint256) string {
+	var sb strings.Builder
+	for p, h := range rg.w.hashes {
+		n := 0
+		_ = rg.n.BC.ForEachNEP17Transfer(h, ^uint64(0), func(t *state.NEP17Transfer) (bool, error) {
+			if n < 12 {
+				tx := t.Tx.StringLE()[:6]
+				if t.Tx == self {
+					tx = "T"
+				} else if t.Tx == blk {
+					tx = "block" // fee burns and rewards of OnPersist/PostPersist carry the block hash
+				}
+				fmt.Fprintf(&sb, "%s:%d:%s:%d:%s ", princNames[p], t.Asset, t.Amount, t.Block, tx)
+			}
+			n++
+			return true, nil
+		})
+		fmt.Fprintf(&sb, "%s#%d; ", princNames[p], n)
+	}
+	return sb.String()
+}
+
+// writers builds good transactions that make the block-level layer own native cache copies.
+func (rg *rig) writers() ([]*transaction.Transaction, error) {
+	var txs []*transaction.Transaction
+	add := func(tx *transaction.Transaction, err error) error {
+		txs = append(txs, tx)
+		return err
+	}
+	s3 := chainx.Signer(3)
+	if err := add(rg.n.MakeTx(chainx.CallScript(nativehashes.PolicyContract, "setFeePerByte", 2222), []neotest.Signer{s3, rg.n.Committee}, chainx.SysFee(gasUnit))); err != nil {
+		return nil, err
+	}
+	ue, err := chainx.CompileU(chainx.UVariant{Name: "UE", Sender: chainx.Acc(3).ScriptHash()})
+	if err != nil {
+		return nil, err
+	}
+	mb, _ := json.Marshal(ue.Manifest)
+	nb, _ := ue.NEF.Bytes()
+	if err := add(rg.n.MakeTx(chainx.CallScript(nativehashes.ContractManagement, "deploy", nb, mb, nil), []neotest.Signer{s3}, chainx.SysFee(20*gasUnit))); err != nil {
+		return nil, err
+	}
+	if err := add(rg.n.MakeTx(chainx.CallScript(nativehashes.NeoToken, "vote", chainx.Acc(2).ScriptHash(), chainx.Acc(1).PublicKey().Bytes()), []neotest.Signer{chainx.Signer(2)}, chainx.SysFee(gasUnit))); err != nil {
+		return nil, err
+	}
+	if err := add(rg.n.MakeTx(chainx.CallScript(nativehashes.RoleManagement, "designateAsRole", int64(noderoles.P2PNotary), []any{chainx.Acc(4).PublicKey().Bytes()}), []neotest.Signer{s3, rg.n.Committee}, chainx.SysFee(gasUnit))); err != nil {
+		return nil, err
+	}
+	return txs, nil
+}
+
 // probeScript reads native settings and registries through the caches and stores a marker.
 func (w *world) probeScript(h uint32) []byte {
 	neo, gas, pol, mgmt, role := nativehashes.NeoToken, nativehashes.GasToken, nativehashes.PolicyContract, nativehashes.ContractManagement, nativehashes.RoleManagement
@@ -555,14 +691,12 @@ func runAtomic(c *checker) atomicStat {
 			if f.multi || p != 0 {
 				var err error
 				if w, err = buildWorld(f.multi, p); err != nil {
-					r.Outcome("harness-error: layer B world: " + err.Error())
-					r.Capped()
+					c.harness(fmt.Errorf("layer B world: %w", err))
 					continue
 				}
 			}
 			if _, _, err := w.udBytes(); err != nil {
-				r.Outcome("harness-error: " + err.Error())
-				r.Capped()
+				c.harness(err)
 				continue
 			}
 			ba.w[fmt.Sprintf("%s/%d", f.name, p)] = w
@@ -588,14 +722,12 @@ func runAtomic(c *checker) atomicStat {
 		done++
 		mu.Unlock()
 		if err != nil {
-			r.Outcome("harness-error: " + bc.key() + ": " + err.Error())
-			fmt.Println("layer B harness error:", bc.key(), err)
-			r.Capped()
+			c.harness(fmt.Errorf("layer B %s: %w", bc.key(), err))
 			return
 		}
 		if len(what) > 0 {
 			r.Outcome("B:DIFFERS:" + what[0])
-			if c.admit("atomic:"+bc.Tpl.Name, what) {
+			if c.admitN("atomic:"+bc.Tpl.Name, what, 1) && c.admitN("atomic", what, 4) {
 				r.Violation(fmt.Sprintf("B:%s:%s", what[0], bc.key()), caseRec{Layer: "B", Mode: "atomic", Prog: bc.Tpl.Name, Family: bc.Family, Pos: bc.Pos,
 					History: []string{fmt.Sprint(bc.Pad)}, What: what, Detail: detail})
 			}
@@ -636,4 +768,3 @@ var (
 	_ = state.NEP17BalanceFromBytes
 )
 
-func (c *checker) replay() {}
